@@ -4,7 +4,7 @@
     by the extracted OCaml runner, so the two evaluation routes check each other.
     Nothing in this file is used by a theorem. *)
 From Coq Require Import String.
-From OtpV Require Import Prelude Sha Tables Errors Decoder Derive Otp Ocra Rfc4226 Rfc6287 Rfc4648 Utils Random Suite SuiteName Url.
+From OtpV Require Import Prelude Sha Tables Errors Decoder Derive Otp Ocra Rfc4226 Rfc6287 Rfc4648 Utils Random Suite SuiteName Url Wasm JsExports.
 Open Scope string_scope.
 Open Scope N_scope.
 Open Scope list_scope.
@@ -153,6 +153,115 @@ Definition parse_urlparam (f : list bytes) (i : nat) : urlparam :=
 Definition gen_url (kind : bytes) (p : urlparam) : outcome url :=
   if bytes_eqb kind (s2b "t") then generate_totp_url p else generate_hotp_url p.
 
+(** ---- WebAssembly / JavaScript binding (C20) ---- *)
+Definition parse_js_int (s : bytes) : Z :=
+  match s with
+  | 45 :: t => (- Z.of_N (parse_N t))%Z
+  | _ => Z.of_N (parse_N s)
+  end.
+(** numbers written like 1e300 / -1e300 are beyond the int64 range *)
+Definition parse_jsnum (s : bytes) : jsnum :=
+  if bytes_eqb s (s2b "NaN") then NNaN else if bytes_eqb s (s2b "Inf") then NInf else if bytes_eqb s (s2b "-Inf") then NNegInf
+  else if existsb (N.eqb 101) s then NInt (if match s with 45 :: _ => true | _ => false end then (- 2 ^ 200)%Z else (2 ^ 200)%Z)
+  else NInt (parse_js_int s).
+Definition parse_jsval (s : bytes) : jsval :=
+  match s with
+  | 115 :: t => JStr (unhex_pairs t)
+  | 110 :: t => JNum (parse_jsnum t)
+  | 113 :: t => JNum (NFrac (parse_js_int t))
+  | 98 :: _ => JBool (bytes_eqb s (s2b "b1"))
+  | 117 :: _ => JUndef
+  | 108 :: _ => JNull
+  | 111 :: _ => JObj
+  | 97 :: _ => JObj
+  | 102 :: _ => JFunc
+  | 121 :: _ => JSym
+  | 103 :: _ => JBigInt
+  | _ => JUndef
+  end.
+Definition r_wres (r : wres) : bytes :=
+  match r with
+  | WStr t => s2b "s:" ++ hex_of t
+  | WBool b => s2b "b:" ++ (if b then s2b "true" else s2b "false")
+  end.
+Definition exports_text : bytes :=
+  s2b "ok:" ++ join 44 (sort_names (map (fun e => fst e ++ [61] ++
+      (if bytes_eqb (fst e) (snd e) && existsb (fun g => bytes_eqb (fst g) (snd e)) js_globals then [49] else [48])) js_exports)).
+
+Definition run_fields7 (f : list bytes) : bytes * bool :=
+  let a i := fld f i in
+  let op := a 0%nat in
+  if bytes_eqb op (s2b "wcall") then
+    match wasm_call (a 1%nat) (map parse_jsval (skipn 3 f)) with
+    | Some r => (r_wres r, true)
+    | None => (s2b "nofunc", true)
+    end
+  else if bytes_eqb op (s2b "wexports") then (exports_text, true)
+  else (s2b "unknown-op", true).
+
+(** the native library's answer for a call of the binding with well-typed arguments in the common
+    domain (counter / timestamp < 2^53, period 1..3600, skew 0..10): the specification column *)
+Definition js_str_of (v : jsval) : option bytes := match v with JStr (c :: t) => Some (c :: t) | _ => None end.
+Definition js_nat_of (v : jsval) : option N :=
+  match v with
+  | JNum (NInt z) | JNum (NFrac z) => if (0 <=? z)%Z && (z <=? 9007199254740992)%Z then Some (Z.to_N z) else None
+  | _ => None
+  end.
+Definition native_hex (o : outcome bytes) : bytes :=
+  match o with Ok c => s2b "s:" ++ hex_of c | _ => s2b "sprefix:" ++ hex_of (s2b "error: ") end.
+Definition native_verdict (o : outcome verdict * nat) : bytes :=
+  match fst o with Ok (true, None) => s2b "b:true" | _ => s2b "b:false" end.
+Definition spec_wasm (f : list bytes) : option bytes :=
+  let name := fld f 1 in
+  let args := map parse_jsval (skipn 3 f) in
+  let ar i := nth i args JUndef in
+  if bytes_eqb name (s2b "generateHOTP") && Nat.eqb (length args) 4 then
+    match js_str_of (ar 0%nat), js_nat_of (ar 1%nat), js_str_of (ar 2%nat), js_str_of (ar 3%nat) with
+    | Some sec, Some c, Some d, Some al =>
+      Some (native_hex (generate_hotp sec c (Some (mkParam (digits_from_str d) 0 0 (algorithm_from_str al)))))
+    | _, _, _, _ => None
+    end
+  else if bytes_eqb name (s2b "generateTOTP") && Nat.eqb (length args) 5 then
+    match js_str_of (ar 0%nat), js_nat_of (ar 1%nat), js_str_of (ar 2%nat), js_str_of (ar 3%nat), js_nat_of (ar 4%nat) with
+    | Some sec, Some t, Some d, Some al, Some per =>
+      if (1 <=? per) && (per <=? 3600) then
+        Some (native_hex (generate_totp sec (Z.of_N t) (Some (mkParam (digits_from_str d) per 0 (algorithm_from_str al)))))
+      else None
+    | _, _, _, _, _ => None
+    end
+  else if bytes_eqb name (s2b "validateHOTP") && Nat.eqb (length args) 6 then
+    match js_str_of (ar 0%nat), js_str_of (ar 1%nat), js_nat_of (ar 2%nat), js_str_of (ar 3%nat), js_str_of (ar 4%nat), js_nat_of (ar 5%nat) with
+    | Some sec, Some code, Some c, Some d, Some al, Some sk =>
+      if sk <=? 10 then
+        match decode_secret sec with
+        | Ok _ => Some (native_verdict (validate_hotp sec code c (Some (mkParam (digits_from_str d) 0 sk (algorithm_from_str al)))))
+        | _ => Some (s2b "sprefix:" ++ hex_of (s2b "error: "))
+        end
+      else None
+    | _, _, _, _, _, _ => None
+    end
+  else if bytes_eqb name (s2b "validateTOTP") && Nat.eqb (length args) 7 then
+    match js_str_of (ar 0%nat), js_str_of (ar 1%nat), js_nat_of (ar 2%nat), js_str_of (ar 3%nat), js_str_of (ar 4%nat), js_nat_of (ar 5%nat), js_nat_of (ar 6%nat) with
+    | Some sec, Some code, Some t, Some d, Some al, Some sk, Some per =>
+      if (sk <=? 10) && (1 <=? per) && (sk <=? t / per) then
+        match decode_secret sec with
+        | Ok _ => Some (native_verdict (validate_totp sec code (Z.of_N t) (Some (mkParam (digits_from_str d) per sk (algorithm_from_str al)))))
+        | _ => Some (s2b "sprefix:" ++ hex_of (s2b "error: "))
+        end
+      else None
+    | _, _, _, _, _, _, _ => None
+    end
+  else if bytes_eqb name (s2b "generateOTPURL") && Nat.eqb (length args) 6 then
+    match js_str_of (ar 0%nat), js_str_of (ar 1%nat), js_str_of (ar 2%nat), js_str_of (ar 3%nat), js_str_of (ar 4%nat), js_str_of (ar 5%nat) with
+    | Some ty, Some iss, Some acc, Some sec, Some d, Some al =>
+      let p := mkUrlParam iss acc 0 sec (digits_from_str d) (algorithm_from_str al) in
+      if bytes_eqb ty (s2b "totp") then Some (match generate_totp_url p with Ok u => s2b "s:" ++ hex_of (url_string u) | _ => s2b "sprefix:" ++ hex_of (s2b "error: ") end)
+      else if bytes_eqb ty (s2b "hotp") then Some (match generate_hotp_url p with Ok u => s2b "s:" ++ hex_of (url_string u) | _ => s2b "sprefix:" ++ hex_of (s2b "error: ") end)
+      else Some (s2b "sprefix:" ++ hex_of (s2b "error: "))
+    | _, _, _, _, _, _ => None
+    end
+  else None.
+
 (** ---- chains: generate, then validate the returned string; overwritten suites; short reads ---- *)
 Definition r_gv (code : bytes) (v : outcome verdict * nat) : bytes := r_verdict v ++ [124] ++ hex_of code.
 Definition run_fields6 (f : list bytes) : bytes * bool :=
@@ -185,7 +294,7 @@ Definition run_fields6 (f : list bytes) : bytes * bool :=
   else if bytes_eqb op (s2b "randchunk") then
     let buf := unhx (a 1%nat) in
     (r_history (run_calls (fun i => nth i buf 0) 0 (map parse_N (split_on 44 (a 3%nat)))), true)
-  else (s2b "unknown-op", true).
+  else run_fields7 f.
 
 Definition run_fields5 (f : list bytes) : bytes * bool :=
   let a i := fld f i in
@@ -381,6 +490,7 @@ Definition spec_fields (f : list bytes) : option bytes :=
             | Ok code => if bytes_eqb code (unhx (a 2%nat)) then s2b "v:true:-" else s2b "v:false:*"
             | _ => s2b "v:false:*" end)
     else None
+  else if bytes_eqb op (s2b "wcall") then spec_wasm f
   else if bytes_eqb op (s2b "rturl") then
     let p := parse_urlparam f 2 in
     let totp := bytes_eqb (a 1%nat) (s2b "t") in
